@@ -56,13 +56,13 @@ def design(ctx):
     if ctx.tier == "quick":
         jobs = [("MCWP_q1.cfg", "safety: xml shape, 3 compressor models, every fault kind, all scripts <= 2, bound 1, pool", False),
                 ("MCWP_q2.cfg", "safety: opl shape, pool and no pool, bound 2, buffer of 1 item, long scripts", False),
-                ("MCWP_q3.cfg", "safety: pbf shape (block handed over in write_end), scripts <= 1 + 7 long, bound 2", True),
+                ("MCWP_q3.cfg", "safety: pbf shape (block handed over in write_end), scripts <= 1 + 9 long, bound 2", True),
                 ("MCWP_live.cfg", "liveness: both threads finish under weak fairness, every fault kind, scripts <= 2", False)]
         w = 4
     else:
-        jobs = [("MCWP_t1.cfg", "safety: xml shape, 3 compressor models, every fault kind, all scripts <= 3 + 7 long, bound 1, pool", True),
-                ("MCWP_t2.cfg", "safety: opl + pbf shapes, pool and no pool, bounds 1 and 2, buffer of 1 and 2 items, scripts <= 1 + 7 long", False),
-                ("MCWP_liveT.cfg", "liveness: both threads finish under weak fairness, every fault kind, scripts <= 1 + 7 long, xml + opl", False)]
+        jobs = [("MCWP_t1.cfg", "safety: xml shape, 3 compressor models, every fault kind, all scripts <= 3 + 9 long, bound 1, pool", True),
+                ("MCWP_t2.cfg", "safety: opl + pbf shapes, pool and no pool, bounds 1 and 2, buffer of 1 and 2 items, scripts <= 1 + 9 long", False),
+                ("MCWP_liveT.cfg", "liveness: both threads finish under weak fairness, every fault kind, scripts <= 1 + 9 long, xml + opl", False)]
         w = 5
 
     def one(job):
